@@ -206,6 +206,13 @@ for n in range(1, 6 if tier == "quick" else 7):
 # deep nesting
 for tok_open, tok_close in (("<b>", "</b>"), ("[[", "]]"), ("{{a|", "}}"), ("* ", "\n"), ("<div>", "</div>"), ("''", "''")):
     run(tok_open * 100 + "x" + tok_close * 100, {}, "nesting-100")
+# deep nesting where cookies are finalized without being parsed: inside <pre> and inside HTML / table attribute values
+for depth in (5, 39, 40, 41, 60, 100):
+    for tok_open, tok_close in (("{{a|", "}}"), ("[[", "]]"), ("{{{", "}}}"), ("{{#if:x|", "}}")):
+        nest = tok_open * depth + "x" + tok_close * depth
+        run("<pre>" + nest + "</pre>", {}, f"nesting-{depth}-in-pre")
+        run('<span class="' + nest + '">t</span>', {}, f"nesting-{depth}-in-attribute")
+        run('{| class="' + nest + '"\n| c\n|}', {}, f"nesting-{depth}-in-table-attribute")
 # mutations of pages embedded in the repository's tests
 tests = Path(__import__("wikitextprocessor").__file__).resolve().parents[2] / "tests" / "test_parser.py"
 pages = []
